@@ -1109,6 +1109,111 @@ fn run_head_close(r: &mut Report, seed: u64, case: u64) {
 }
 
 // ---------------------------------------------------------------------------
+// the collector closes an established keep-alive connection between two batches
+// ---------------------------------------------------------------------------
+
+/// Batch 1 is answered 200 / grpc-status 0, then the collector closes (FIN) or resets the connection -
+/// a proxy's idle timeout, a restart. The emitter is idle, then batches 2, 3, 4 follow (the collector does
+/// it again after batch 3). A failed first attempt on the dead cached connection followed by a retry on a
+/// fresh one is fine; every event of the later batches must end up in exactly one acknowledged request on
+/// its signal, flush must say true, and nothing may be counted as discarded.
+fn run_idle_close(r: &mut Report, seed: u64, case: u64) {
+    r.eval();
+    let mut g = Rng::stream(seed, &[14, 6, case]);
+    let transport = Transport::ALL[(case % 3) as usize];
+    let gzip = case / 3 % 2 == 0;
+    let reset = case / 6 % 2 == 1;
+    let subset = [1u8, 2, 4, 7][(case / 12 % 4) as usize];
+    let tname = transport.name();
+    let configured: Vec<Signal> = Signal::ALL.into_iter().filter(|s| subset & s.bit() != 0).collect();
+    let drop_ = Decision::AckThenDrop { reset };
+    let cfgs = configured.iter().map(|s| EndpointCfg { signal: *s, wire: transport.wire(), listen: true, script: vec![drop_, Decision::Ack(200), drop_] }).collect();
+    let col = Collector::start(cfgs);
+    let otlp = build_otlp(&col, transport, gzip, subset);
+    let before = otlp.metric_source().event_discarded();
+    let case_json = |detail: Json| json!({"seed": seed, "case": case, "kind": "idle-close", "transport": tname, "gzip": gzip, "subset": subset_name(subset), "connection": if reset { "reset" } else { "closed" }, "detail": detail});
+    let mut sent: Vec<(u64, Signal, usize)> = Vec::new();
+    let mut vid = case * 100_000;
+    for batch in 1..=4usize {
+        for s in &configured {
+            let kind = match s {
+                Signal::Logs => 0,
+                Signal::Traces => 1,
+                Signal::Metrics => 2,
+            };
+            for _ in 0..(1 + g.usize(4)) {
+                emit_big(&otlp, vid, kind, "idle");
+                sent.push((vid, *s, batch));
+                vid += 1;
+            }
+        }
+        if !otlp.blocking_flush(Duration::from_secs(60)) {
+            r.observe("idle-close:scenarios-inconclusive", 1);
+            r.inconclusive(format!("idle-connection scenario: blocking_flush returned false (60 s) for batch {}", batch));
+            return;
+        }
+        // the emitter is idle now; wait until the collector has really closed what it wanted to close
+        let want_closed = if batch == 1 || batch == 3 { configured.len() * (1 + batch / 3) } else { 0 };
+        let t0 = std::time::Instant::now();
+        while col.conns().iter().filter(|c| c.closed_by_collector).count() < want_closed && t0.elapsed() < Duration::from_secs(5) {
+            std::thread::sleep(Duration::from_millis(2));
+        }
+        std::thread::sleep(Duration::from_millis(10 + g.below(30)));
+    }
+    col.settle();
+    let records = col.records();
+    let discarded = otlp.metric_source().event_discarded() - before;
+    let first_conn: HashMap<Signal, u64> = configured.iter().filter_map(|s| records.iter().filter(|rec| rec.endpoint == *s).map(|rec| rec.conn).min().map(|c| (*s, c))).collect();
+    let fresh = records.iter().filter(|rec| first_conn.get(&rec.endpoint).map(|c| rec.conn != *c).unwrap_or(false)).count();
+    r.observe("idle-close:requests-recorded", records.len() as u64);
+    r.observe("idle-close:requests-on-fresh-connections", fresh as u64);
+    r.observe("idle-close:connections-closed-by-the-collector", col.conns().iter().filter(|c| c.closed_by_collector).count() as u64);
+    r.observe("idle-close:scenarios-decided", 1);
+    r.nontrivial(&("idle-close", tname, gzip, reset, subset));
+    let mut acked_in: HashMap<u64, Vec<Signal>> = HashMap::new();
+    for rec in records.iter().filter(|rec| rec.acked() && rec.body.is_some()) {
+        if let (Some(ps), Ok(items)) = (rec.path_signal(), rec.items()) {
+            for v in items.iter().filter_map(|i| i.vid()) {
+                acked_in.entry(v).or_default().push(ps);
+            }
+        }
+    }
+    for (v, sig, batch) in &sent {
+        let got = acked_in.get(v).cloned().unwrap_or_default();
+        if got.len() == 1 && got[0] == *sig {
+            r.observe("idle-close:events-acknowledged-exactly-once", 1);
+            continue;
+        }
+        let what = if got.is_empty() { "not-exported" } else if got.len() > 1 { "exported-more-than-once" } else { "wrong-signal" };
+        r.violation(
+            &format!("C14:{}:after-collector-closed-idle-connection:{}:{}", what, tname, sig.name()),
+            &format!(
+                "the collector answered batch 1 and then {} the connection; event v{} of batch {} ({}) is in {} acknowledged requests ({:?}) although flush returned true; {} of {} requests arrived on fresh connections",
+                if reset { "reset" } else { "closed" },
+                v,
+                batch,
+                sig.name(),
+                got.len(),
+                got.iter().map(|s| s.name()).collect::<Vec<_>>(),
+                fresh,
+                records.len()
+            ),
+            case_json(json!({"vid": v, "batch": batch, "requests": records.iter().map(|rec| rec.brief()).collect::<Vec<_>>()})),
+        );
+        break;
+    }
+    if discarded != 0 {
+        r.violation(
+            &format!("C14:discard-count:after-collector-closed-idle-connection:{}", tname),
+            &format!("event_discarded rose by {} although every event has a configured signal", discarded),
+            case_json(json!({"discarded": discarded})),
+        );
+    }
+    drop(otlp);
+    drop(col);
+}
+
+// ---------------------------------------------------------------------------
 // many threads emitting at once: the discard counter is exact
 // ---------------------------------------------------------------------------
 
@@ -1317,6 +1422,15 @@ fn main() {
                 r.observe("replayed", 1);
                 std::process::exit(r.finish());
             }
+            Some("idle-close") => {
+                emit_batcher::verif::set_delay_divisor(100);
+                emit_otlp::verif::set_request_timeout(Some(Duration::from_secs(10)));
+                for i in 0..3 {
+                    run_idle_close(&mut r, s, c);
+                    r.nontrivial(&("replay-run", i));
+                }
+                std::process::exit(r.finish());
+            }
             Some("concurrent") => {
                 for i in 0..2 {
                     run_concurrent(&mut r, s, c, args.thorough());
@@ -1359,6 +1473,15 @@ fn main() {
     par_cases(&mut r, &args, n_head_close * 16, |i, r| {
         if i % 16 == 0 {
             run_head_close(r, seed, i / 16)
+        }
+    });
+
+    // The collector closes idle keep-alive connections between batches (3 transports x gzip x close / reset x
+    // {L, T, M, LTM} = 48 per round).
+    let n_idle = args.n(48, 480);
+    par_cases(&mut r, &args, n_idle * 16, |i, r| {
+        if i % 16 == 0 {
+            run_idle_close(r, seed, i / 16)
         }
     });
 
